@@ -450,6 +450,75 @@ func allScenarios() []scenario {
 			}}
 		}})
 	}
+	for _, rep := range []string{"dense", "sparse"} {
+		rep := rep
+		out = append(out, scenario{"graph-shared-same-calls-" + rep, func() *instance {
+			// every goroutine calls the SAME read-only functions on the shared graph (state a function keeps for itself
+			// at package level only shows when two goroutines are inside that function)
+			n, edges := testGraphEdges()
+			var g graph.EditableGraph = graph.NewDense(n, nil)
+			if rep == "sparse" {
+				g = graph.NewSparse(n, nil)
+			}
+			for _, e := range edges {
+				g.AddEdge(e[0], e[1])
+			}
+			body := func(seed int64) threadBody {
+				return opsBody(
+					func() string { return fmt.Sprint(graph.RandomMaximalClique(g, seed), graph.CliqueNumber(g)) },
+					func() string { x, c := graph.ChromaticNumber(g); return fmt.Sprint(x, c, graph.Girth(g), graph.IsPlanar(g)) },
+					func() string { a, b := graph.ChromaticIndex(g); return fmt.Sprint(a, b, g.Degrees(), graph.MinDegree(g)) },
+					func() string {
+						v := graph.Complement(g)
+						return fmt.Sprint(v.Degrees(), graph.Diameter(g), graph.NumberOfInducedCycles(g, -1), graph.Graph6Encode(g), graph.Sparse6Encode(g))
+					},
+					func() string {
+						p, o, gen := graph.CanonicalIsomorphFull(g, nil)
+						d, order := graph.Degeneracy(g)
+						return fmt.Sprint(p, o, gen, d, order)
+					},
+				)
+			}
+			return &instance{shared: map[string]interface{}{"graph": g}, threads: []threadBody{body(1), body(101)}}
+		}})
+	}
+	out = append(out, scenario{"derived-values", func() *instance {
+		// values derived from a shared graph (Copy, InducedSubgraph of an initial segment / of a permuted list) are the
+		// deriving goroutine's own: it edits them while the others read the source
+		n, edges := testGraphEdges()
+		g := graph.NewDense(n, nil)
+		for _, e := range edges {
+			g.AddEdge(e[0], e[1])
+		}
+		s := graph.NewSparse(n, nil)
+		for _, e := range edges {
+			s.AddEdge(e[0], e[1])
+		}
+		edit := func(h graph.EditableGraph) string {
+			h.RemoveEdge(0, 1)
+			h.AddVertex([]int{0, 2})
+			h.AddEdge(1, 3)
+			h.RemoveVertex(1)
+			return graph.Graph6Encode(h) + fmt.Sprint(h.Degrees())
+		}
+		return &instance{shared: map[string]interface{}{"dense": g, "sparse": s}, threads: []threadBody{
+			opsBody(
+				func() string { return edit(g.InducedSubgraph([]int{0, 1, 2, 3})) },
+				func() string { return edit(s.InducedSubgraph([]int{0, 1, 2, 3, 4})) },
+				func() string { return edit(g.Copy()) },
+			),
+			opsBody(
+				func() string { return graph.Graph6Encode(g) + fmt.Sprint(g.Degrees()) },
+				func() string { return graph.Graph6Encode(s) + fmt.Sprint(s.Degrees(), s.Neighbours(4)) },
+				func() string { return graph.Sparse6Encode(g) + fmt.Sprint(g.M(), s.M()) },
+			),
+			opsBody(
+				func() string { return edit(s.Copy()) },
+				func() string { return edit(g.InducedSubgraph([]int{2, 0, 1, 4, 3})) },
+				func() string { return edit(s.InducedSubgraph([]int{0, 1, 2})) },
+			),
+		}}
+	}})
 	out = append(out, scenario{"dawg-shared-arguments", func() *instance {
 		// the goroutines build their searchers and lookups from the SAME read-only byte slices
 		d, err := dawg.New(wordsBytes("opts", "post", "pots", "spot", "stop", "tops"))
